@@ -1152,15 +1152,6 @@ func (schema *Schema) visitJSON(settings *schemaValidationSettings, value any) (
 		}
 	}
 
-	if schema.IsEmpty() {
-		switch value.(type) {
-		case nil:
-			return schema.visitJSONNull(settings)
-		default:
-			return
-		}
-	}
-
 	if err = schema.visitNotOperation(settings, value); err != nil {
 		return
 	}
